@@ -80,7 +80,8 @@ func VerifC10(maxEvents, withWorkload int) {
 	returned := false
 	// the probe is an RPC - or a send-waiting Unicast, which has no result: a message that the
 	// client drops (a node error it reports to nobody) simply never reaches the peer
-	oneway := vChoice("probe-oneway", 2) == 1
+	// (only in the small configuration: the variant doubles the probe phase)
+	oneway := maxEvents <= 2 && withWorkload == 0 && vChoice("probe-oneway", 2) == 1
 	go func() {
 		if oneway {
 			w.nodes[0].Unicast(context.Background(), CallData{Message: probe, Method: "verif.probe"})
